@@ -163,6 +163,9 @@ def rule_precedence(ctx, r):
 
     from .evalhelpers import cli_main_precedence_witness
     ctx.structural_or_witness(r, structural, lambda: cli_main_precedence_witness(ctx), con, both=True)
+    from .evalhelpers import cli_overrides_witness, cached_witness as _cw, report_witness as _rw
+    _rw(r, "src/gwf/cli.py::main::text-options", "src/gwf/cli.py:1", _cw(ctx, "cli-overrides", cli_overrides_witness),
+        "text given to the group's KEY=VALUE options (if any) is coerced as `gwf config set` coerces it")
     # verbosity (D12)
     opt = _option(idx, main, "--verbose")
     dflt = [k.value for k in opt.keywords if k.arg == "default"] if opt else []
